@@ -24,7 +24,8 @@ LEVEL = "exploration"
 RULE = (
     "Facet history: rule-based stateful generation (Hypothesis RuleBasedStateMachine; the executed rule sequence is the "
     "shrinkable, replayable case) over a fresh Destinations: log(burst n) with n from {1..5, 995..1005, 1500, 2001, 2500} (several bursts add up, so the buffer wraps more than once) inside or "
-    "outside an action, add(1-3 new destinations), remove(registered), add_global_fields(k=v) incl. re-setting a key; "
+    "outside an action, add(1-3 new destinations), add(a distinct destination object that compares equal to a registered one and "
+    "feeds the same sink, like two FileDestinations on one stream), remove(registered), add_global_fields(k=v) incl. re-setting a key; "
     "after every rule each destination's received list is compared with a reference model (bounded FIFO of 1000, "
     "registration list, global-field dict): buffered messages exactly once, in order, ahead of later ones, only to the "
     "first add's destinations, each delivered message carrying all global fields set before its delivery (latest value), "
@@ -58,7 +59,7 @@ class Model(object):
 def run_history(ops):
     """
     Execute a list of operations against a fresh Destinations and the model.
-    ops: ["log", burst_index, in_action] | ["add", count] | ["remove", k] | ["global", key, value]
+    ops: ["log", burst_index, in_action] | ["add", count] | ["twin", k] | ["remove", k] | ["global", key, value]
     """
     saved_dest = Logger._destinations
     fresh = Destinations()
@@ -99,7 +100,7 @@ def run_history(ops):
                     model.next_dest += 1
                     lst = []
                     real[i] = lst
-                    dest_objs[i] = _make_dest(lst)
+                    dest_objs[i] = _make_dest(lst, i)
                     model.received[i] = []
                     new_ids.append(i)
                 fresh.add(*[dest_objs[i] for i in new_ids])
@@ -122,6 +123,17 @@ def run_history(ops):
                 fresh.remove(dest_objs[i])
                 model.dests.remove(i)
                 info["removes"] += 1
+                if i in model.dests:
+                    info["removed_one_of_equal_twins"] = True
+            elif kind == "twin":
+                # a second, distinct destination object that compares equal to a registered one and feeds the same
+                # sink (like two FileDestinations for one stream): each registration is offered every message
+                if not model.dests:
+                    continue
+                i = model.dests[op[1] % len(model.dests)]
+                fresh.add(_make_dest(real[i], i))
+                model.dests.append(i)
+                info["twins"] = info.get("twins", 0) + 1
             elif kind == "global":
                 key = "g%d" % (op[1] % 3)
                 if key in model.globals:
@@ -137,11 +149,28 @@ def run_history(ops):
     return info
 
 
-def _make_dest(lst):
-    def dest(message):
-        lst.append(dict(message))
+class _SinkDest(object):
+    """A value object like FileDestination: equal when it writes to the same sink."""
 
-    return dest
+    def __init__(self, lst, key):
+        self.lst = lst
+        self.key = key
+
+    def __call__(self, message):
+        self.lst.append(dict(message))
+
+    def __eq__(self, other):
+        return isinstance(other, _SinkDest) and other.key == self.key
+
+    def __ne__(self, other):
+        return not self.__eq__(other)
+
+    def __hash__(self):
+        return hash(self.key)
+
+
+def _make_dest(lst, key):
+    return _SinkDest(lst, key)
 
 
 def _model_log(model, count, tag="m"):
@@ -216,6 +245,11 @@ def history_runner(mod, facet, tier, seed, shard, nshards, stats):
         def remove(self, k):
             self.ops.append(["remove", k])
 
+        @precondition(lambda self: any(o[0] == "add" for o in self.ops))
+        @rule(k=st.integers(0, 5))
+        def twin(self, k):
+            self.ops.append(["twin", k])
+
         @rule(key=st.integers(0, 2), value=st.integers(0, 5))
         def set_global(self, key, value):
             self.ops.append(["global", key, value])
@@ -270,6 +304,10 @@ def classify_history(case, info):
         labels.append("global-key-reset")
     if info["globals"]:
         labels.append("globals")
+    if info.get("twins"):
+        labels.append("equal-twin-registered")
+    if info.get("removed_one_of_equal_twins"):
+        labels.append("one-of-two-equal-registrations-removed")
     nontrivial = (info["adds"] >= 2 and info["removes"] >= 1 and info["buffered_then_added"]) or (info["over_cap"] and info["buffered_then_added"])
     return bool(nontrivial), labels
 
@@ -292,7 +330,7 @@ def run_handover(case, dest_factory=None):
     Logger._destinations = fresh
     received = [[] for _ in range(case["ndest"])]
     if dest_factory is None:
-        dests = [_make_dest(lst) for lst in received]
+        dests = [_make_dest(lst, k) for k, lst in enumerate(received)]
     else:
         dests = [dest_factory(i, lst) for i, lst in enumerate(received)]
     logged = []
@@ -447,7 +485,8 @@ def ops_strategy():
     remove = st.tuples(st.just("remove"), st.integers(0, 5)).map(list)
     glob = st.tuples(st.just("global"), st.integers(0, 2), st.integers(0, 5)).map(list)
     before = st.lists(st.one_of(log, small_log, small_log, glob), max_size=4)
-    after = st.lists(st.one_of(small_log, small_log, add, remove, glob, log), max_size=10)
+    twin = st.tuples(st.just("twin"), st.integers(0, 5)).map(list)
+    after = st.lists(st.one_of(small_log, small_log, add, remove, glob, log, twin, remove), max_size=10)
     return st.tuples(before, add, after).map(lambda t: {"ops": t[0] + [t[1]] + t[2]})
 
 
